@@ -1,6 +1,6 @@
 #!/bin/bash
 # usage: tools/keep_pending.sh <cNN> <n> "<needs>" "<caught by>" <id number> — keeps seeded/pending/<cNN>/change<n>.diff (confirmed earlier) as seeded/<ID>-<idn>
 c=$1; n=$2
-mkdir -p /tmp/seed-out-$c; cp /verif/seeded/pending/$c/*$n* /tmp/seed-out-$c/
+export SEED_OUT=$(mktemp -d /tmp/keep-pending-XXXXXX); cp /verif/seeded/pending/$c/*$n* $SEED_OUT/
 /verif/tools/keep_seed.sh "$c" "$n" "$3" "$4" "$5" && rm -f /verif/seeded/pending/$c/*$n*
-rmdir /verif/seeded/pending/$c 2>/dev/null; rm -rf /tmp/seed-out-$c
+rmdir /verif/seeded/pending/$c 2>/dev/null; rm -rf $SEED_OUT
